@@ -35,7 +35,10 @@ describe('C19',
          'of an auto_ivc output) is accepted by the is_abs/is_prom gate and reaches set_val. endpoint: the '
          'value is stored through an end point in the frame it was recorded in (an input value through the '
          'very input that indexes the table; an output value through an output, a source or the promoted key, '
-         'never through inputs resolved by an unrestricted resolver.absnames). Does not decide what set_val '
+         'never through inputs resolved by an unrestricted resolver.absnames). values: PromAbsDict.__init__ files '
+         'each recorded value under the absolute name it was recorded under (key/value of the table loop never '
+         'rebound, self._values[key] = val in the absolute-name branch, structured-array row untouched) and '
+         '__getitem__(abs_name) answers from self._values first. Does not decide what set_val '
          'does, MPI scatter arithmetic, or the dict (list_inputs/list_outputs) form beyond value provenance.',
          ['the recorder stores inputs under absolute names and auto_ivc outputs under the promoted input name '
           '(record_util.deserialize resolves them that way)',
@@ -841,6 +844,11 @@ def case_keyspace(repo):
             raise AnalysisError(f'{pi.ident}: key loop at line {loopst.lineno} not recognised')
         n_calls += 1
         keyexpr = c.args[0]
+        if isinstance(keyexpr, ast.Name) and keyexpr.id != kv:
+            tmp = [st.value for st in astx.walk_stmts(loopst.body) if isinstance(st, ast.Assign) and
+                   len(st.targets) == 1 and astx.path(st.targets[0]) == keyexpr.id]
+            if len(tmp) == 1:
+                keyexpr = tmp[0]
         # branch context: nearest enclosing membership test in whose body/orelse chain we are
         member = None          # 'abs2prom' | 'prom2abs' | 'else' | 'deriv'
         applies = {'inputs', 'outputs'}
@@ -1168,6 +1176,123 @@ def endpoint(repo, out):
                 out.unsure(fn, verdict[1], verdict[2])
 
 
+# =========================================================================== C19.values
+def _is_self_values_store(st):
+    """`self._values[<Name>] = <expr>` -> (key name, value expr) else None."""
+    if isinstance(st, ast.Assign) and len(st.targets) == 1 and isinstance(st.targets[0], ast.Subscript) and \
+            astx.path(st.targets[0].value) == 'self._values' and isinstance(st.targets[0].slice, ast.Name):
+        return st.targets[0].slice.id, st.value
+    return None
+
+
+@rule('C19.values', floor=4)
+def values(repo, out):
+    """PromAbsDict keeps for every absolute name the value recorded under that very name; __getitem__ returns it."""
+    pi = repo.func(CASE, 'PromAbsDict.__init__')
+    g = cfgm.build(pi)
+    rd = cfgm.ReachingDefs(g)
+    top = [st for st in pi.node.body if isinstance(st, ast.If) and isinstance(st.test, ast.Call) and
+           astx.call_name(st.test) == 'isinstance' and len(st.test.args) == 2 and
+           astx.path(st.test.args[0]) == 'values' and astx.path(st.test.args[1]) == 'dict']
+    if len(top) != 1:
+        raise AnalysisError(f'{pi.ident}: dict/structured-array dispatch not found')
+    top = top[0]
+    # ---------------- dict form
+    loops = [st for st in top.body if isinstance(st, ast.For)]
+    if len(loops) != 1 or not (isinstance(loops[0].target, ast.Tuple) and len(loops[0].target.elts) == 2 and
+                               all(isinstance(e, ast.Name) for e in loops[0].target.elts) and
+                               isinstance(loops[0].iter, ast.Call) and astx.callee_attr(loops[0].iter) == 'items'
+                               and astx.path(astx.receiver(loops[0].iter)) == 'values'):
+        raise AnalysisError(f'{pi.ident}: `for key, val in values.items()` not found in the dict branch')
+    loop = loops[0]
+    kv, vv = loop.target.elts[0].id, loop.target.elts[1].id
+    hdr = g.nodes_of(loop)[0]
+    body = set(g.body_nodes(loop))
+    # (1) the recorded key and value are not replaced before they are filed
+    rebound = None
+    for n in g.nodes:
+        if n in body and n.kind == 'stmt':
+            for t in astx.assigned_targets(n.ast):
+                if astx.path(t) in (kv, vv):
+                    rebound = (n, astx.path(t))
+    if rebound is not None:
+        n, nm = rebound
+        v = n.ast.value if isinstance(n.ast, ast.Assign) else None
+        if nm == kv and v is not None and any(
+                (isinstance(e, ast.Subscript) and astx.path(e.value) == 'abs2prom') or
+                (isinstance(e, ast.Call) and astx.callee_attr(e) == 'get' and astx.path(astx.receiver(e)) == 'abs2prom')
+                for e in astx.walk(v)):
+            out.bad(pi, n.ast, f'the recorded absolute key is replaced by its promoted name ({astx.src(n.ast)}) '
+                    'before the value is filed: several absolute inputs share one promoted name (different '
+                    'units / src_indices), so they all end up with the value of the last one recorded and '
+                    'case.inputs[abs_name] no longer returns the value recorded under abs_name',
+                    key='values-rekeyed-to-promoted')
+        else:
+            out.unsure(pi, n.ast, f'loop variable {nm} of the recorded table is rebound inside the loop')
+    else:
+        out.ok(pi, loop, f'dict form: {kv}/{vv} of the recorded table are never rebound before they are filed')
+    # (2) under `key in abs2prom` the value is kept under the absolute key itself
+    absif = None
+    for st in astx.walk_stmts(loop.body):
+        if isinstance(st, ast.If) and isinstance(st.test, ast.Compare) and len(st.test.ops) == 1 and \
+                isinstance(st.test.ops[0], ast.In) and astx.path(st.test.left) == kv and \
+                astx.path(st.test.comparators[0]) == 'abs2prom':
+            absif = st
+            break
+    if absif is None:
+        out.unsure(pi, loop, f'dict form: no `{kv} in abs2prom` branch')
+    else:
+        stores = [x for x in (_is_self_values_store(st) for st in astx.walk_stmts(absif.body)) if x]
+        good = [x for x in stores if x[0] == kv and isinstance(x[1], ast.Name) and x[1].id == vv]
+        if good:
+            out.ok(pi, absif, f'dict form: a value recorded under an absolute name is kept as self._values[{kv}] = {vv}')
+        elif stores:
+            out.bad(pi, absif, f'dict form: the value recorded under an absolute name is filed as '
+                    f'self._values[{stores[0][0]}] = {astx.src(stores[0][1])}, not under that absolute name',
+                    key='values-abs-not-kept')
+        else:
+            out.bad(pi, absif, 'dict form: the value recorded under an absolute name is only filed under the '
+                    'promoted name (no self._values[<absolute name>] store): absolute inputs sharing a promoted '
+                    'name lose their own recorded value', key='values-abs-not-kept')
+    # (3) keys of the dict form are the keys of _values
+    kdefs = [st for st in top.body if isinstance(st, ast.Assign) and astx.path(st.targets[0]) == 'self._keys']
+    if len(kdefs) == 1 and isinstance(kdefs[0].value, ast.Call) and astx.callee_attr(kdefs[0].value) == 'keys' and \
+            astx.path(astx.receiver(kdefs[0].value)) == 'self._values':
+        out.ok(pi, kdefs[0], 'dict form: absolute_names()/__getitem__ look names up in the keys of _values')
+    else:
+        out.unsure(pi, top, 'dict form: definition of self._keys not recognised')
+    # ---------------- structured-array form: _values/_keys are the record and its field names, untouched
+    adefs = {astx.path(st.targets[0]): st for st in top.orelse if isinstance(st, ast.Assign) and len(st.targets) == 1}
+    va, ka = adefs.get('self._values'), adefs.get('self._keys')
+    if va is not None and ka is not None and astx.path(va.value) == 'values[0]' and \
+            astx.path(ka.value) == 'values.dtype.fields':
+        later = [st for st in astx.walk_stmts(top.orelse) if st not in (va, ka) and
+                 any((astx.path(t) or '').startswith(('self._values', 'self._keys')) for t in astx.assigned_targets(st))]
+        if later:
+            out.unsure(pi, later[0], 'structured-array form: _values/_keys modified after construction')
+        else:
+            out.ok(pi, va, 'structured-array form: _values is the recorded row, _keys its (absolute) field names')
+    else:
+        out.unsure(pi, top, 'structured-array form: definition of _values/_keys not recognised')
+    # ---------------- __getitem__: an absolute name is answered from _values before anything else
+    gi = repo.func(CASE, 'PromAbsDict.__getitem__')
+    first = astx.strip_doc(gi.node.body)
+    kp = gi.node.args.args[1].arg if len(gi.node.args.args) == 2 else None
+    f0 = first[0] if first else None
+    if isinstance(f0, ast.If) and isinstance(f0.test, ast.Compare) and len(f0.test.ops) == 1 and \
+            isinstance(f0.test.ops[0], ast.In) and astx.path(f0.test.left) == kp and \
+            astx.path(f0.test.comparators[0]) == 'self._keys':
+        r0 = f0.body[0] if f0.body else None
+        if isinstance(r0, ast.Return) and isinstance(r0.value, ast.Subscript) and \
+                astx.path(r0.value.value) == 'self._values' and astx.path(r0.value.slice) == kp:
+            out.ok(gi, f0, '__getitem__(abs_name) returns self._values[abs_name] before trying promoted names')
+        else:
+            out.bad(gi, f0, f'__getitem__ answers a name found in self._keys with {astx.src(r0)} instead of '
+                    'self._values[name]', key='getitem-abs')
+    else:
+        out.unsure(gi, f0, '__getitem__ does not start with the absolute-name lookup `key in self._keys`')
+
+
 # =========================================================================== self-test
 _IN_BLOCK = '''        if inputs:
             for abs_name in inputs:
@@ -1213,9 +1338,8 @@ _OUT_BLOCK = '''        if outputs:
                     issue_warning(f"{model.msginfo}: Output variable, '{name}', recorded "
                                   "in the case is not found in the model.")
 '''
-# the same blocks as they look after the repair of the two findings (iterate absolute_names() in Case
-# mode; resolve an output key to outputs, an auto_ivc key to its source).  Self-test items are registered
-# for both shapes; the ones that do not match the current tree are counted as inapplicable.
+# _IN_HDR / _FAN are the shapes before the repair of the two findings of this module (kept as mutants);
+# _IN_HDR_FIXED / _FAN_FIXED are today's text.
 _IN_HDR = '        if inputs:\n            for abs_name in inputs:'
 _IN_HDR_FIXED = '        if inputs:\n            for abs_name in (inputs if case_is_dict else inputs.absolute_names()):'
 _FAN = '                    for abs_name in resolver.absnames(name):\n'
@@ -1227,9 +1351,8 @@ _FAN_FIXED = """                    if resolver.is_prom(name, 'output'):
 
                     for abs_name in abs_names:
 """
-_IN_BLOCK_FIXED = _IN_BLOCK.replace(_IN_HDR, _IN_HDR_FIXED)
-_OUT_BLOCK_FIXED = _OUT_BLOCK.replace(_FAN, _FAN_FIXED)
-assert _IN_BLOCK_FIXED != _IN_BLOCK and _OUT_BLOCK_FIXED != _OUT_BLOCK
+_IN_BLOCK = _IN_BLOCK.replace(_IN_HDR, _IN_HDR_FIXED)
+_OUT_BLOCK = _OUT_BLOCK.replace(_FAN, _FAN_FIXED)
 _OUT_FLIPPED_TMPL = '''        if outputs:
             for name in outputs:
                 if set_later(name):
@@ -1266,8 +1389,7 @@ _IN_STORE = ("                    if model.comm.size > 1 and resolver.flags(abs_
 def _shape_items():
     """Self-test items that quote whole blocks, for the current and for the repaired shape."""
     items = []
-    for tag, inb, outb, hdr, fan in (('', _IN_BLOCK, _OUT_BLOCK, _IN_HDR, _FAN),
-                                     ('@fixed', _IN_BLOCK_FIXED, _OUT_BLOCK_FIXED, _IN_HDR_FIXED, _FAN_FIXED)):
+    for tag, inb, outb, hdr, fan in (('', _IN_BLOCK, _OUT_BLOCK, _IN_HDR_FIXED, _FAN_FIXED),):
         items += [
             Mutant('order-outputs-first' + tag, PRB, inb + '\n' + outb, outb + '\n' + inb, 'C19.order'),
             Mutant('nodrop-inputs-guard-flipped' + tag, PRB, hdr, hdr.replace('if inputs:', 'if not inputs:'), 'C19.nodrop'),
@@ -1367,14 +1489,35 @@ selftest(
            '                    else:\n                        super().__setitem__(key, val)\n                elif DERIV_KEY_SEP in key:',
            'C19.keyspace'),
     # ---- endpoint
-    Mutant('endpoint-absnames-input', PRB, 'for abs_name in resolver.absnames(name):',
-           "for abs_name in resolver.absnames(name, 'input'):", 'C19.endpoint'),
-    Mutant('endpoint-absnames-input@fixed', PRB, "abs_names = resolver.absnames(name, 'output')",
+    Mutant('endpoint-source-dropped', PRB, '(resolver.source(name),)', 'resolver.absnames(name)', 'C19.endpoint'),
+    Mutant('endpoint-absnames-input', PRB, "abs_names = resolver.absnames(name, 'output')",
            "abs_names = resolver.absnames(name, 'input')", 'C19.endpoint'),
     # ---- the two findings of this module, as seen from the repaired shape
-    Mutant('finding-outputs-through-inputs@fixed', PRB, _FAN_FIXED, _FAN, 'C19.endpoint'),
-    Mutant('finding-inputs-keyspace@fixed', PRB, _IN_HDR_FIXED, _IN_HDR, 'C19.keyspace'),
+    Mutant('finding-outputs-through-inputs', PRB, _FAN_FIXED, _FAN, 'C19.endpoint'),
+    Mutant('finding-inputs-keyspace', PRB, _IN_HDR_FIXED, _IN_HDR, 'C19.keyspace'),
     *_shape_items(),
+    # ---- values
+    Mutant('values-seed-rekey-to-promoted', CASE,
+           "            for key, val in values.items():\n                if key in abs2prom:\n",
+           "            for key, val in values.items():\n                if abs2prom.get(key) in prom2abs:\n"
+           "                    # use promoted name so all connected absolute names are populated\n"
+           "                    key = abs2prom[key]\n\n                if key in abs2prom:\n", 'C19.values'),
+    Mutant('values-abs-store-dropped', CASE,
+           "                    # key is absolute name\n                    self._values[key] = val\n", "                    # key is absolute name\n",
+           'C19.values'),
+    Mutant('values-abs-filed-under-prom', CASE,
+           "                    # key is absolute name\n                    self._values[key] = val\n",
+           "                    # key is absolute name\n                    key = abs2prom[key]\n                    self._values[key] = val\n",
+           'C19.values'),
+    Mutant('values-getitem-wrong-slot', CASE,
+           "            # absolute name\n            return self._values[key]\n",
+           "            # absolute name\n            return super().__getitem__(self._abs2prom[key])\n", 'C19.values'),
+    Twin('twin-values-temp-prom', CASE,
+         "                    self._values[key] = val\n                    super().__setitem__(abs2prom[key], val)\n",
+         "                    prom = abs2prom[key]\n                    self._values[key] = val\n                    super().__setitem__(prom, val)\n"),
+    Twin('twin-values-reordered', CASE,
+         "                    self._values[key] = val\n                    super().__setitem__(abs2prom[key], val)\n",
+         "                    super().__setitem__(abs2prom[key], val)\n                    self._values[key] = val\n"),
     # ---- twins
     Twin('twin-sorted-dict', PRB, 'for sys_name in sorted(system_overrides.keys()):', 'for sys_name in sorted(system_overrides):'),
     Twin('twin-items', PRB, _FINAL, '        for sys_name, sub in sorted(system_overrides.items()):\n            sub.load_case(case)\n'),
